@@ -107,7 +107,9 @@ type TransportRuntime interface {
 	//
 	// It injects evT7Timeout, which the supervisor evaluates SERIALLY: NotSelected -> NotConnected (reconnect),
 	// but a NO-OP if the session has since reached Selected or NotConnected — so a validly-Selected
-	// session is NEVER torn down by a stale T7 (E37 §9.2.2).
+	// session is NEVER torn down by a stale T7 (E37 §9.2.2). The event carries the NOT-SELECTED dwell
+	// in which the timer expired, so it stays a no-op if the session was selected in the meantime and
+	// is back in NotSelected (a new dwell, with its own T7) when the supervisor gets to it.
 	T7Expired()
 
 	// DeliverOwnedFrame passes a freshly-read, GC-owned frame buffer to the core for decode and routing.
